@@ -1509,3 +1509,224 @@ Proof.
     + right. right. right. split; [assumption|].
       split; [exact G|]. exists ci. split; assumption.
 Qed.
+
+(* everything but the outbox and the log is untouched *)
+Definition only_msgs_log (r r' : raft) : Prop :=
+  r' = r <| r_msgs := r_msgs r' |> <| r_log := r_log r' |>.
+
+Lemma only_msgs_log_push r x : only_msgs_log r (push r x).
+Proof. unfold only_msgs_log, push. destruct r; reflexivity. Qed.
+
+Lemma only_msgs_log_refl r : only_msgs_log r r.
+Proof. unfold only_msgs_log. destruct r; reflexivity. Qed.
+
+Lemma only_msgs_log_push_log r x r' :
+  r' = (push r x) <| r_log := r_log r' |> -> only_msgs_log r r'.
+Proof.
+  intros H. unfold only_msgs_log.
+  assert (Hm : r_msgs r' = r_msgs r ++ [x]) by (rewrite H; reflexivity).
+  rewrite Hm. rewrite H at 1. unfold push. destruct r; reflexivity.
+Qed.
+
+(* (3) what a pre-vote request leaves behind on the receiver.  At most one message is
+   queued.  A Follower or Leader keeps every field except the outbox and (Follower
+   only, on a rejection) the commit index taken from the request; in particular vote,
+   leader id, role and election timer are untouched, also when the pre-vote is
+   granted.  A Candidate or PreCandidate that rejects may be stepped down by the commit
+   fast-forward ([maybe_commit_by_vote]) to Follower of the same term. *)
+Theorem prevote_req_no_trace r m r' c :
+  m_type m = MsgRequestPreVote -> step r m = Ok (r', c) ->
+  (exists new, r_msgs r' = r_msgs r ++ new /\ (length new <= 1)%nat /\
+     forall x, In x new -> m_type x = MsgRequestPreVoteResponse /\ m_to x = m_from m /\
+                           m_from x = r_id r /\
+                           (m_reject x = false -> m_term x = m_term m /\ grants r m = Ok true) /\
+                           (m_reject x = true -> m_term x = r_term r)) /\
+  (only_msgs_log r r' /\ (r_state r = Leader \/ grants r m = Ok true -> r_log r' = r_log r) \/
+   ((r_state r = Candidate \/ r_state r = PreCandidate) /\ grants r m = Ok false /\
+    r_state r' = Follower /\ r_term r' = r_term r /\ r_vote r' = r_vote r /\
+    r_leader_id r' = INVALID_ID /\ r_election_elapsed r' = 0 /\ cfg_of r' = cfg_of r)).
+Proof.
+  intros Ht H. apply prevote_req_receiver in H; [|exact Ht].
+  destruct H as [_ [(_ & _ & ->)|[(Z & L & ->)|[(T & G & ->)|(T & G & ci & Hci & Hm)]]]].
+  - split.
+    + exists []. rewrite app_nil_r. split; [reflexivity|]. split; [cbn; lia|]. intros x [].
+    + left. split; [apply only_msgs_log_refl|reflexivity].
+  - split.
+    + eexists. split; [reflexivity|]. split; [cbn; lia|]. intros x [<-|[]]. cbn.
+      repeat split; intros; try reflexivity; try discriminate.
+    + left. split; [apply only_msgs_log_push|reflexivity].
+  - split.
+    + eexists. split; [reflexivity|]. split; [cbn; lia|]. intros x [<-|[]]. cbn.
+      repeat split; intros; try reflexivity; try assumption; try discriminate.
+    + left. split; [apply only_msgs_log_push|reflexivity].
+  - pose proof (maybe_commit_by_vote_msgs _ _ _ Hm) as Hmsgs.
+    split.
+    + eexists. split; [rewrite Hmsgs; reflexivity|]. split; [cbn; lia|]. intros x [<-|[]]. cbn.
+      repeat split; intros; try reflexivity; try discriminate.
+    + pose proof Hm as Hm'. apply maybe_commit_by_vote_cases in Hm. destruct Hm as [E|(Hs & l' & Hf)].
+      * left. split; [eapply only_msgs_log_push_log; exact E|].
+        intros [S|S]; [|congruence].
+        unfold maybe_commit_by_vote in Hm'.
+        assert (Hl : is_leader (push r (vote_resp r m MsgRequestPreVoteResponse true (r_term r) ci)) = true)
+          by (unfold is_leader; cbn; rewrite S; reflexivity).
+        rewrite Hl, orb_true_r in Hm'.
+        destruct ((m_commit m =? 0) || (m_commit_term m =? 0)); okinv Hm'; reflexivity.
+      * right. split; [exact Hs|]. split; [exact G|].
+        apply become_follower_facts in Hf.
+        destruct Hf as (A1 & A2 & A3 & A4 & A5 & _ & _ & _ & _ & A10 & _).
+        cbn in A1, A2, A5. rewrite N.eqb_refl in A5. repeat split; assumption.
+Qed.
+
+(* ------------------------------------------------------------------ *)
+(* Part 5: the lease and the leader *)
+
+Definition lease_request (r : raft) (m : msg) : Prop :=
+  (m_type m = MsgRequestVote \/ m_type m = MsgRequestPreVote) /\
+  r_term r < m_term m /\ list_eqb (m_context m) CAMPAIGN_TRANSFER = false.
+
+(* (4) inside the lease any number of higher-term (pre-)vote requests changes nothing
+   and queues nothing *)
+Theorem lease_trace : forall ms r,
+  r_check_quorum r = true -> r_leader_id r <> INVALID_ID ->
+  r_election_elapsed r < r_election_timeout r ->
+  Forall (lease_request r) ms ->
+  run r (map IStep ms) = Ok r.
+Proof.
+  induction ms as [|m rest IH]; intros r Hc Hl He Hall; [reflexivity|].
+  inversion Hall as [|? ? (Ht & Hterm & Hctx) Hrest]; subst.
+  cbn [map run apply_input].
+  rewrite (lease_ignores_vote_requests r m Ht Hterm Hc Hl He Hctx). cbn [bind fst].
+  apply IH; assumption.
+Qed.
+
+(* a leader's step under any message that carries no adoptable higher term *)
+Theorem leader_step r m r' c :
+  r_state r = Leader -> step r m = Ok (r', c) ->
+  (m_term m <= r_term r \/ exempt m = true \/ lease_drop r m = true) ->
+  r_term r' = r_term r /\ cfg_of r' = cfg_of r /\
+  ((r_state r' = Leader /\ r_leader_id r' = r_leader_id r) \/
+   (m_type m = MsgCheckQuorum /\ check_quorum_active r = false /\
+    r_state r' = Follower /\ r_leader_id r' = INVALID_ID)).
+Proof.
+  intros Hs H Hq. rewrite step_eq in H. ib H pre Hpre. apply step_pre_cases in Hpre.
+  assert (Hk : forall ra, keeps r ra ->
+    r_term ra = r_term r /\ cfg_of ra = cfg_of r /\
+    ((r_state ra = Leader /\ r_leader_id ra = r_leader_id r) \/
+     (m_type m = MsgCheckQuorum /\ check_quorum_active r = false /\
+      r_state ra = Follower /\ r_leader_id ra = INVALID_ID))).
+  { intros ra K. apply keeps_fields in K. destruct K as (A1 & _ & A3 & A4 & A5).
+    split; [exact A1|]. split; [exact A5|]. left. split; congruence. }
+  destruct pre as [[r1 c1]|r1].
+  - okinv H. destruct Hpre as (_ & _ & [(_ & _ & ->)|(_ & Hl)]); [apply Hk, keeps_refl|].
+    apply Hk, msgs_only_keeps, low_term_reply_msgs_only with (m := m). exact Hl.
+  - destruct Hpre as [[-> _]|(L & D & E & _)];
+      [|destruct Hq as [Q|[Q|Q]]; [lia|congruence|congruence]].
+    unfold step_body in H.
+    destruct (m_type m =? MsgHup) eqn:Ehup.
+    { ib H y Hy. okinv H. apply hup_cases in Hy. destruct Hy as [->|(C & _)]; [|contradiction].
+      apply Hk, keeps_refl. }
+    destruct ((m_type m =? MsgRequestVote) || (m_type m =? MsgRequestPreVote)) eqn:Ev.
+    { assert (Ht : m_type m = MsgRequestVote \/ m_type m = MsgRequestPreVote)
+        by (apply orb_prop in Ev; destruct Ev as [E|E]; apply N.eqb_eq in E; auto).
+      assert (Hb : step_body r m = Ok (r', c)) by (unfold step_body; rewrite Ehup, Ev; exact H).
+      apply step_body_vote in Hb; [|exact Ht].
+      destruct Hb as [_ [(_ & _ & ->)|(_ & _ & ci & _ & Hm)]].
+      - destruct (m_type m =? MsgRequestVote); cbn; rewrite Hs; auto.
+      - apply maybe_commit_by_vote_cases in Hm. destruct Hm as [->|([S|S] & _)];
+          [cbn; rewrite Hs; auto| |]; cbn in S; congruence. }
+    rewrite Hs in H. apply step_leader_cases in H. destruct H as [K|(T & A & Hf)]; [apply Hk, K|].
+    apply become_follower_facts in Hf. destruct Hf as (F1 & F2 & F3 & F4 & _).
+    split; [exact F1|]. split; [exact F2|]. right. auto.
+Qed.
+
+(* (4) (pre-)vote requests that do not carry a higher term never change the term, role
+   or leader id of a Leader: a lower-term vote request is ignored, a lower-term
+   pre-vote request is rejected explicitly, a same-term one gets one response *)
+Theorem leader_vote_request r m r' c :
+  r_state r = Leader ->
+  (m_type m = MsgRequestVote \/ m_type m = MsgRequestPreVote) ->
+  m_term m <= r_term r -> step r m = Ok (r', c) ->
+  r_term r' = r_term r /\ r_state r' = Leader /\ r_leader_id r' = r_leader_id r /\
+  r_log r' = r_log r /\ c = E_OK /\
+  ((m_term m <> 0 /\ m_term m < r_term r /\
+    if m_type m =? MsgRequestVote then r' = r
+    else r' = push r (vote_resp r m MsgRequestPreVoteResponse true (r_term r) (0, 0))) \/
+   ((m_term m = 0 \/ m_term m = r_term r) /\
+    ((grants r m = Ok true /\
+      r' = if m_type m =? MsgRequestVote
+           then (push r (vote_resp r m (resp_type m) false (m_term m) (0, 0)))
+                  <| r_election_elapsed := 0 |> <| r_vote := m_from m |>
+           else push r (vote_resp r m (resp_type m) false (m_term m) (0, 0))) \/
+     (grants r m = Ok false /\ exists ci, commit_info (r_log r) = Ok ci /\
+      r' = push r (vote_resp r m (resp_type m) true (r_term r) ci))))).
+Proof.
+  intros Hs Ht Hle H. rewrite step_eq in H. ib H pre Hpre. apply step_pre_cases in Hpre.
+  destruct pre as [[r1 c1]|r1].
+  - okinv H. destruct Hpre as (-> & Z & [(L & _)|(L & Hl)]); [lia|].
+    unfold low_term_reply in Hl.
+    assert (Hn : ((m_type m =? MsgHeartbeat) || (m_type m =? MsgAppend)) = false)
+      by (destruct Ht as [E|E]; rewrite E; reflexivity).
+    rewrite Hn, andb_false_r in Hl.
+    destruct Ht as [E|E]; rewrite E in Hl |- *.
+    + change (MsgRequestVote =? MsgRequestPreVote) with false in Hl. okinv Hl.
+      change (MsgRequestVote =? MsgRequestVote) with true.
+      repeat split; try assumption. left. auto.
+    + change (MsgRequestPreVote =? MsgRequestPreVote) with true in Hl.
+      apply send_vote_resp in Hl; [|reflexivity|right; reflexivity]. destruct Hl as [_ ->].
+      change (MsgRequestPreVote =? MsgRequestVote) with false.
+      repeat split; try assumption. left. split; [exact Z|]. split; [exact L|reflexivity].
+  - destruct Hpre as [[-> Hc]|(L & _)]; [|lia].
+    assert (Hterm : m_term m = 0 \/ m_term m = r_term r) by (destruct Hc as [?|[?|(? & _)]]; auto; lia).
+    apply step_body_vote in H; [|exact Ht].
+    destruct H as [-> [(G & Z & ->)|(G & Z & ci & Hci & Hm)]].
+    + assert (F : forall x, r_term (push r x) = r_term r /\ r_state (push r x) = Leader /\
+                   r_leader_id (push r x) = r_leader_id r /\ r_log (push r x) = r_log r)
+        by (intros x; cbn; auto).
+      destruct (m_type m =? MsgRequestVote) eqn:E; cbn; rewrite Hs;
+        (repeat split; try reflexivity); right; (split; [exact Hterm|]); left;
+        (split; [exact G|reflexivity]).
+    + unfold maybe_commit_by_vote in Hm.
+      assert (Hl : is_leader (push r (vote_resp r m (resp_type m) true (r_term r) ci)) = true)
+        by (unfold is_leader; cbn; rewrite Hs; reflexivity).
+      rewrite Hl, orb_true_r in Hm.
+      assert (E : r' = push r (vote_resp r m (resp_type m) true (r_term r) ci))
+        by (destruct ((m_commit m =? 0) || (m_commit_term m =? 0)); okinv Hm; reflexivity).
+      subst r'. cbn. rewrite Hs. repeat split; try reflexivity. right. split; [exact Hterm|].
+      right. split; [exact G|]. exists ci. split; [exact Hci|reflexivity].
+Qed.
+
+(* (5) a rejected pre-vote response from a higher term: the receiver (a PreCandidate or
+   any other role) becomes follower of that term with no leader; nothing is queued *)
+Theorem prevote_reject_higher_term r m r' c :
+  m_type m = MsgRequestPreVoteResponse -> m_reject m = true -> r_term r < m_term m ->
+  step r m = Ok (r', c) ->
+  c = E_OK /\ become_follower r (m_term m) INVALID_ID = Ok r' /\
+  r_term r' = m_term m /\ r_state r' = Follower /\ r_vote r' = INVALID_ID /\
+  r_leader_id r' = INVALID_ID /\ r_msgs r' = r_msgs r /\ r_election_elapsed r' = 0.
+Proof.
+  intros Ht Hr Hlt H. rewrite step_eq in H. ib H pre Hpre. apply step_pre_cases in Hpre.
+  assert (Hex : exempt m = false) by (unfold exempt; rewrite Ht, Hr; reflexivity).
+  assert (Hfl : from_leader m = false) by (unfold from_leader; rewrite Ht; reflexivity).
+  destruct pre as [[r1 c1]|r1].
+  - exfalso. destruct Hpre as (_ & _ & [(_ & D & _)|(L & _)]); [|lia].
+    unfold lease_drop in D. rewrite Ht in D. discriminate.
+  - destruct Hpre as [[_ [Z|[Z|(_ & _ & E)]]]|(_ & _ & _ & Hf)]; try lia; try congruence.
+    rewrite Hfl in Hf. pose proof (become_follower_facts _ _ _ _ Hf) as
+      (F1 & F2 & F3 & F4 & F5 & F6 & _ & _ & _ & F10 & _).
+    unfold step_body in H. rewrite Ht, F3 in H.
+    change (MsgRequestPreVoteResponse =? MsgHup) with false in H.
+    change ((MsgRequestPreVoteResponse =? MsgRequestVote) ||
+            (MsgRequestPreVoteResponse =? MsgRequestPreVote)) with false in H.
+    cbv iota in H. unfold step_follower in H. rewrite Ht in H.
+    change (MsgRequestPreVoteResponse =? MsgPropose) with false in H.
+    change (MsgRequestPreVoteResponse =? MsgAppend) with false in H.
+    change (MsgRequestPreVoteResponse =? MsgHeartbeat) with false in H.
+    change (MsgRequestPreVoteResponse =? MsgSnapshot) with false in H.
+    change (MsgRequestPreVoteResponse =? MsgTransferLeader) with false in H.
+    change (MsgRequestPreVoteResponse =? MsgTimeoutNow) with false in H.
+    change (MsgRequestPreVoteResponse =? MsgReadIndex) with false in H.
+    change (MsgRequestPreVoteResponse =? MsgReadIndexResp) with false in H.
+    cbv iota in H. okinv H.
+    assert (Hne : (r_term r =? m_term m) = false) by (apply N.eqb_neq; lia).
+    rewrite Hne in F5. repeat split; assumption.
+Qed.
